@@ -775,17 +775,23 @@ def Ghost.set (g : Ghost) (c : Option Ctl) (v : Int) : Ghost :=
   | _ => g
 
 /-- Ghost after one operation; `ret` is the call's return value, `ua` what the toplevel instance's
-    `USE_ALTSCREEN` control read before the operation. -/
-def Ghost.step (g : Ghost) (op : Op) (ret : Option Bool) (ua : Int) : Ghost :=
+    `USE_ALTSCREEN` control read before the operation (`none`: there is no toplevel instance). -/
+def Ghost.step (g : Ghost) (op : Op) (ret : Option Bool) (ua : Option Int) : Ghost :=
   match op with
   | .ctl c v => if ret = some true then g.set c v else g
   | .setpen p => { g with pen := logicalPen true g.pen p }
   | .chpen p => { g with pen := logicalPen false g.pen p }
   | .tick nosetup =>
-    if !g.doneSetup && !nosetup then
-      { g with doneSetup := true, alt := if ua ≠ 0 then 1 else g.alt, vis := 0, mouse := 2, keypad := 1 }
-    else g
+    match ua with
+    | none => g
+    | some u =>
+      if !g.doneSetup && !nosetup then
+        { g with doneSetup := true, alt := if u ≠ 0 then 1 else g.alt, vis := 0, mouse := 2, keypad := 1 }
+      else g
   | _ => g
+
+/-- What the toplevel instance's `USE_ALTSCREEN` control reads. -/
+def Sys.ua (s : Sys) : Option Int := s.top.map fun t => (t.useAlt : Int)
 
 /-- The terminal shows the modes last set (while running). -/
 def modesShown (m : VModes) (g : Ghost) : Bool :=
